@@ -10,7 +10,8 @@ open TdModel TdModel.C01
 
 def kindOfChar : Char → Option Kind
   | 'm' => some .msg | 'o' => some .other | 'q' => some .qts | 'r' => some .qother
-  | 'M' => some .chmsg | 'O' => some .chother | 'p' => some .plain | _ => none
+  | 'M' => some .chmsg | 'O' => some .chother | 'p' => some .plain
+  | 'a' => some .aff | 'A' => some .chaff | _ => none
 
 /-- `m1:0:11:1` = kind, id, channel, pos, count. -/
 def parseEntry (s : String) : Option Entry :=
@@ -34,6 +35,8 @@ def parseAction (s : String) : Option Action :=
   match s.splitOn ":" with
   | ["e", n] => do pure (.emit (← n.toNat?))
   | ["p", ids] => do pure (.push (← (ids.splitOn ",").mapM String.toNat?))
+  | ["a", id] => do pure (.affected (← id.toNat?))
+  | ["z", c] => do pure (.affectedZero (← c.toNat?))
   | ["T"] => some .tooLong
   | ["CT", c] => do pure (.chTooLong (← c.toNat?))
   | ["W"] => some .wait
@@ -100,13 +103,14 @@ persisted state the run started from. -/
 def checksOf (O : Orders) (log : List Entry) (p0 q0 : Int) (c0 : List (Nat × Int))
     (fp fq : Int) (fc : List (Nat × Int)) (m : Mgr) : String :=
   let keys := seqKeys c0
+  let mk := mkOf log
   let wf := keys.all fun k =>
     tiled (initOf p0 q0 c0 k) (seqLog log k) &&
-    wfRun (applyCallsOf O k) (seqLog log k) { state := initOf fp fq fc k } (opsOf m.ops k)
-  let sf := keys.all fun k => safe (seqLog log k) (initOf fp fq fc k) [] false (projSeq log k m.trace)
-  let cp := keys.all fun k => complete (seqLog log k) (initOf fp fq fc k) (projSeq log k m.trace)
+    wfRun (applyCfgOf O mk k) (seqLog log k) { state := initOf fp fq fc k } (opsOf m.ops k)
+  let sf := keys.all fun k => safe (seqLog log k) mk (initOf fp fq fc k) [] false (projSeq log k m.trace)
+  let cp := keys.all fun k => complete (seqLog log k) mk (initOf fp fq fc k) (projSeq log k m.trace)
   let rf := keys.all fun k =>
-    decide (projSeq log k m.trace = (srun (applyCallsOf O k) { state := initOf fp fq fc k } (opsOf m.ops k)).2)
+    decide (projSeq log k m.trace = (srun (applyCfgOf O mk k) { state := initOf fp fq fc k } (opsOf m.ops k)).2)
   s!"wf={b2s wf} safe={b2s sf} complete={b2s cp} ref={b2s rf}"
 
 def mgrHandle (O : Orders) (line : String) : String :=
@@ -132,8 +136,8 @@ def mgrHandle (O : Orders) (line : String) : String :=
         (evs.filter (· != "_")).mapM parseEvent with
     | some fp, some fq, some fc, some c0, some log, some tr =>
       let keys := seqKeys c0
-      let sf := keys.all fun k => safe (seqLog log k) (initOf fp fq fc k) [] false (projSeq log k tr)
-      let cp := keys.all fun k => complete (seqLog log k) (initOf fp fq fc k) (projSeq log k tr)
+      let sf := keys.all fun k => safe (seqLog log k) (mkOf log) (initOf fp fq fc k) [] false (projSeq log k tr)
+      let cp := keys.all fun k => complete (seqLog log k) (mkOf log) (initOf fp fq fc k) (projSeq log k tr)
       s!"safe={b2s sf} complete={b2s cp}"
     | _, _, _, _, _, _ => "bad-op"
   | _ => "bad-op"
